@@ -9,7 +9,7 @@ package internal_test
 // etcd's log are *pending* until the harness either pumps them to the live
 // watchers (delivered) or a reload happens (they were missed: only the reload
 // snapshot shows them). The oracle runs only at quiescence: nothing pending and
-// every live watcher has taken a progress notification after its last event.
+// every watch goroutine is parked in its loop again.
 
 import (
 	"fmt"
@@ -49,6 +49,7 @@ type c15Sub struct {
 	mu    sync.Mutex
 	calls int64
 	last  []string
+	gate  *c15Gate
 
 	// reference model for exclusive mode: value -> possible owner keys ("" = the
 	// value is not retained). More than one member = the order in which the
@@ -60,11 +61,27 @@ type c15Sub struct {
 	prevVisible map[string]bool // nil = unknown/ambiguous
 }
 
+// c15Gate parks the change listener (which runs on the watch goroutine) at one
+// chosen invocation until the harness releases it.
+type c15Gate struct {
+	at      int64
+	entered chan struct{}
+	release chan struct{}
+}
+
 func (s *c15Sub) listener() {
 	s.mu.Lock()
 	s.calls++
+	n, g := s.calls, s.gate
 	s.last = s.sub.Values()
 	s.mu.Unlock()
+	if g != nil && n == g.at {
+		close(g.entered)
+		select {
+		case <-g.release:
+		case <-time.After(6 * c15Watchdog):
+		}
+	}
 }
 
 func (s *c15Sub) mAdd(keys []string, val string) {
@@ -112,6 +129,7 @@ type c15World struct {
 	ops    []c15Op
 	failed bool // a violation was recorded: stop the scenario
 	incon  bool // a watchdog fired: stop the test
+	wedged bool // the cluster is deadlocked: it cannot be disposed
 
 	trig     *internal.C15Trigger
 	fired    int64
@@ -142,7 +160,11 @@ func newC15World(m *vk.M, idx int, r *rand.Rand, svcs []string) *c15World {
 
 func (w *c15World) endpoints() []string { return append([]string(nil), w.eps...) }
 
-func (w *c15World) dispose() { internal.C15Dispose(w.eps) }
+func (w *c15World) dispose() {
+	if !w.wedged {
+		internal.C15Dispose(w.eps)
+	}
+}
 
 func (w *c15World) desc() string {
 	return fmt.Sprintf("case=%d;%s", w.idx, vk.JSON(map[string]any{"services": w.svcs, "ops": w.ops}))
@@ -229,7 +251,7 @@ func (w *c15World) applyDelivered(ev c15Ev) {
 // pump delivers the pending events below log index upto to every live watcher
 // (each from its own cursor, so a watcher that re-subscribed from an older
 // revision gets the replay etcd would send), interleaving the watchers, then
-// makes every live watcher take a progress notification.
+// waits until every watcher has processed what it was handed.
 func (w *c15World) pump(upto, mode int) bool {
 	if n := w.etcd.logLen(); upto > n {
 		upto = n
@@ -279,7 +301,7 @@ func (w *c15World) pump(upto, mode int) bool {
 			qs = append(qs[:i], qs[i+1:]...)
 		}
 	}
-	if !w.barrier() {
+	if !w.quiesce() {
 		return false
 	}
 	if upto > w.delivered {
@@ -291,9 +313,23 @@ func (w *c15World) pump(upto, mode int) bool {
 	return true
 }
 
-// barrier: every live watcher takes an empty progress notification, which its
-// goroutine can only do once it is back in its select loop.
-func (w *c15World) barrier() bool {
+// quiesce waits until every watch goroutine of the package is parked in its
+// loop again, i.e. everything handed to it has been processed.
+func (w *c15World) quiesce() bool {
+	min := 0
+	if len(w.live) > 0 {
+		min = 1
+	}
+	if !vk.WaitUntil(c15Watchdog, func() bool { return c15WatchersIdle(min) }) {
+		w.inconclusive("watch goroutines did not return to their loop within %v", c15Watchdog)
+		return false
+	}
+	return true
+}
+
+// progress makes every live watcher take an etcd progress notification (a
+// response without events).
+func (w *c15World) progress() bool {
 	rev := c15BaseRev + int64(w.etcd.logLen())
 	for _, lw := range w.live {
 		if ok, _ := c15Send(lw, c15Response(nil, rev)); !ok {
@@ -301,7 +337,7 @@ func (w *c15World) barrier() bool {
 			return false
 		}
 	}
-	return true
+	return w.quiesce()
 }
 
 func (w *c15World) waitWatches(n int, what string) bool {
@@ -366,7 +402,7 @@ func (w *c15World) afterReload(nb, expected int, phase string) {
 	if missed > 0 {
 		w.nReloadsAfterMiss++
 	}
-	// a watcher that asked for an older revision gets its replay; all take a barrier
+	// a watcher that asked for an older revision gets its replay; then quiescence
 	if !w.pump(w.delivered, 1) {
 		return
 	}
@@ -753,6 +789,14 @@ func (w *c15World) exec(op c15Op) {
 		w.rewatch(op.N, true)
 	case "state":
 		w.state(op.S)
+	case "progress":
+		if len(w.live) == 0 {
+			return
+		}
+		w.ops = append(w.ops, op)
+		if w.progress() {
+			w.check("after-watch-events")
+		}
 	case "getfail":
 		w.ops = append(w.ops, op)
 		w.etcd.mu.Lock()
